@@ -295,23 +295,24 @@ theorem date_widening_keeps_precision :
 section Expr
 open FP.Model.Eval
 
-/-- the four conversion targets the assembled evaluator carries, with their function names -/
+/-- the eight conversion targets the assembled evaluator carries, with their function names -/
 def convNames : List (Ty × String × String) :=
   [(.string, "toString", "convertsToString"), (.integer, "toInteger", "convertsToInteger"),
-   (.decimal, "toDecimal", "convertsToDecimal"), (.boolean, "toBoolean", "convertsToBoolean")]
+   (.decimal, "toDecimal", "convertsToDecimal"), (.boolean, "toBoolean", "convertsToBoolean"),
+   (.date, "toDate", "convertsToDate"), (.dateTime, "toDateTime", "convertsToDateTime"),
+   (.time, "toTime", "convertsToTime"), (.quantity, "toQuantity", "convertsToQuantity")]
 
 /-- `convertsToT()` is true exactly when `toT()` is non-empty: on the assembled evaluator, for every
-    single System item that is a Boolean, Integer, Decimal or (UTF-8) String -/
+    single System item — Boolean, Integer, Decimal, (UTF-8) String, Quantity, Date, DateTime, Time -/
 theorem expr_converts_iff_nonempty (env : Env) (t : Ty) (to conv : String) (h : (t, to, conv) ∈ convNames)
     (v : Val) (cv : CV) (hv : toCV v = some cv) :
     eval env (.fn conv .argNil) [v] = .ok [.bool (convertsTo t cv)] ∧
     (convertsTo t cv = true ↔ ∃ r, convTo t cv = .ok (some r)) := by
   have hc : cv ≠ .complex := by
-    cases v <;> simp [toCV] at hv <;> (try (subst hv; simp))
-    obtain ⟨_, _, rfl⟩ := hv; simp
+    cases v <;> simp [toCV] at hv <;> first | (subst hv; simp) | (obtain ⟨_, _, rfl⟩ := hv; simp)
   refine ⟨?_, converts_iff_nonempty t cv hc⟩
   simp only [convNames, List.mem_cons, Prod.mk.injEq, List.not_mem_nil, or_false] at h
-  rcases h with ⟨rfl, rfl, rfl⟩ | ⟨rfl, rfl, rfl⟩ | ⟨rfl, rfl, rfl⟩ | ⟨rfl, rfl, rfl⟩ <;>
+  rcases h with ⟨rfl, rfl, rfl⟩ | ⟨rfl, rfl, rfl⟩ | ⟨rfl, rfl, rfl⟩ | ⟨rfl, rfl, rfl⟩ | ⟨rfl, rfl, rfl⟩ | ⟨rfl, rfl, rfl⟩ | ⟨rfl, rfl, rfl⟩ | ⟨rfl, rfl, rfl⟩ <;>
     simp [eval, apply0, convertsOn, hv]
 
 /-- a conversion function on an empty input is empty, on more than one item an error -/
@@ -319,7 +320,7 @@ theorem expr_conversion_cardinality (env : Env) (t : Ty) (to conv : String) (h :
     eval env (.fn to .argNil) [] = .ok [] ∧ eval env (.fn conv .argNil) [] = .ok [] ∧
     ∀ a b r, eval env (.fn to .argNil) (a :: b :: r) = .err "not-singleton" := by
   simp only [convNames, List.mem_cons, Prod.mk.injEq, List.not_mem_nil, or_false] at h
-  rcases h with ⟨rfl, rfl, rfl⟩ | ⟨rfl, rfl, rfl⟩ | ⟨rfl, rfl, rfl⟩ | ⟨rfl, rfl, rfl⟩ <;>
+  rcases h with ⟨rfl, rfl, rfl⟩ | ⟨rfl, rfl, rfl⟩ | ⟨rfl, rfl, rfl⟩ | ⟨rfl, rfl, rfl⟩ | ⟨rfl, rfl, rfl⟩ | ⟨rfl, rfl, rfl⟩ | ⟨rfl, rfl, rfl⟩ | ⟨rfl, rfl, rfl⟩ <;>
     simp [eval, apply0, convOn, convertsOn]
 
 end Expr
